@@ -77,8 +77,13 @@ def pytest_addoption(parser, pluginmanager):
 categories = Flags.all().to_set()
 
 
+def is_xdist_worker(config):
+    return hasattr(config, "workerinput")
+
+
 def xdist_running(config):
-    return (
+    # xdist resets numprocesses to None inside of the workers
+    return is_xdist_worker(config) or (
         hasattr(config.option, "numprocesses")
         and config.option.numprocesses is not None
         and config.option.numprocesses != 0
@@ -318,7 +323,7 @@ def pytest_sessionfinish(session, exitstatus):
             return con
 
         if xdist_running(config):
-            if state().flags != {"disable"}:
+            if state().flags != {"disable"} and not is_xdist_worker(config):
                 console().print(
                     "INFO: inline-snapshot was disabled because you used xdist\n"
                 )
